@@ -18,7 +18,9 @@ Front ends (DESIGN.md section 4):
       (Proofs/SplitterLayout.v);
   (g) read()-tail front end: skip-frames arithmetic, loop condition, frame_close gate, duplicate Game End, metadata
       dispatch of src/io/slippi/de.rs fn read, through the expression front end -> Gen/ReadTail.v (Proofs/ReadLayout.v);
-  (h) UBJSON marker front end: src/io/ubjson/{de,ser}.rs -> Gen/UbjsonMarkers.v (Proofs/UbjsonLayout.v).
+  (h) UBJSON marker front end: src/io/ubjson/{de,ser}.rs -> Gen/UbjsonMarkers.v (Proofs/UbjsonLayout.v);
+  (i) writer front end, second part: PayloadSizes::raw_size, frame_counts, gecko_codes_size -> Gen/WriterRaw.v
+      (Proofs/WriterRawLayout.v); the statement sequence of slippi::write -> Gen/WriterSteps.v (Proofs/WriterStepsLayout.v).
 
 Anything it does not recognise is a loud failure (exit 3, message naming file/item/token): the checks then
 treat every property that depends on the tables as "tie broken" and go searching for a failing input.
@@ -3230,6 +3232,292 @@ def gen_ubjson_markers():
     return '\n'.join(L) + '\n'
 
 
+# ------------------------------------------------------------------------------------------------
+# (i) writer front end, second part (src/io/slippi/ser.rs): PayloadSizes::raw_size, frame_counts, gecko_codes_size
+#     -> Gen/WriterRaw.v; the top-level sequence of write() -> Gen/WriterSteps.v
+
+def gen_writer_raw():
+    stoks = tokenize(read(SLP_SER), SLP_SER)
+    events = dict(enum_codes(DE_RS, 'Event'))
+    # ---- raw_size
+    where = '%s PayloadSizes::raw_size' % SLP_SER
+    params, ret, body = find_fn(SLP_SER, 'PayloadSizes', 'raw_size')
+    if sjp(params) != '& self , game : & Game' or sj(ret) != '-> u32':
+        raise TranslateError('%s: unexpected signature' % where)
+    counts_decl = parse_struct_decl(stoks, 'FrameCounts', SLP_SER)
+    if counts_decl != [('frames', 'u32'), ('frame_data', 'u32'), ('items', 'u32')]:
+        raise TranslateError('%s: struct FrameCounts is not { frames: u32, frame_data: u32, items: u32 }: %s' % (SLP_SER, counts_decl))
+    sts = fw_stmts(body, where)
+    txt = [sj(x) for x in sts]
+    strict_match(txt[:3], [
+        ('`use Event::*`', r'use Event :: \*'),
+        ('`let counts = frame_counts(&game.frames)`', r'let counts = frame_counts \( & game \. frames \)'),
+        ('`let sizes: HashMap<u8, u16> = self.sizes.iter().map(|(k, v)| (*k, *v)).collect()`',
+         r'let sizes : std :: collections :: HashMap < u8 , u16 > = self \. sizes \. iter \( \) \. map \( \| \( k , v \) \| \( \* k , \* v \) \) \. collect \( \)'),
+    ], where)
+    if len(sts) != 4:
+        raise TranslateError('%s: expected `use`, two `let`s and the sum, found %d statements' % (where, len(sts)))
+    sv = StmtView(sts[3], where)
+    segs, trailing = sv.split_top(0, len(sts[3]), '+')
+    if trailing or not segs:
+        raise TranslateError('%s: malformed sum' % where)
+    E = r'(\w+)'
+    K = r'(\d+)'
+    IDX = r'sizes \[ & \( %s as u8 \) \] as u32' % E
+    terms = []
+
+    def ev_ok(e):
+        if e not in events:
+            raise TranslateError('%s: %s is not a variant of de::Event' % (where, e))
+        return coq_str(e)
+
+    def cnt_ok(c):
+        if c not in dict(counts_decl):
+            raise TranslateError('%s: counts.%s is not a field of FrameCounts' % (where, c))
+        return coq_str(c)
+
+    for (a, b) in segs:
+        s = sj(sts[3][a:b])
+        m = re.fullmatch(r'(\d+)(?:u32)?', s)
+        if m:
+            terms.append('RtConst %d' % int(m.group(1)))
+            continue
+        m = re.fullmatch(r'\( %s \* self \. sizes \. len \( \) as u32 \)' % K, s)
+        if m:
+            terms.append('RtTableLen %s' % m.group(1))
+            continue
+        m = re.fullmatch(IDX, s)
+        if m:
+            terms.append('RtSize %s' % ev_ok(m.group(1)))
+            continue
+        m = re.fullmatch(r'game \. end \. as_ref \( \) \. map_or \( 0 , \| _ \| %s \+ %s \)' % (K, IDX), s)
+        if m:
+            terms.append('RtIfEnd %s %s' % (m.group(1), ev_ok(m.group(2))))
+            continue
+        m = re.fullmatch(r'match game \. end \. is_some \( \) && game \. quirks \. map_or \( false , \| q \| q \. double_game_end \) '
+                         r'\{ true => %s \+ %s , _ => 0u32 \}' % (K, IDX), s)
+        if m:
+            terms.append('RtIfEndDouble %s %s' % (m.group(1), ev_ok(m.group(2))))
+            continue
+        m = re.fullmatch(r'counts \. (\w+) \* \( %s \+ %s \)' % (K, IDX), s)
+        if m:
+            terms.append('RtCountReq %s %s %s' % (cnt_ok(m.group(1)), m.group(2), ev_ok(m.group(3))))
+            continue
+        m = re.fullmatch(r'sizes \. get \( & \( %s as u8 \) \) \. map_or \( 0 , \| s \| counts \. (\w+) \* \( %s \+ \* s as u32 \) \)' % (E, K), s)
+        if m:
+            terms.append('RtCountOpt %s %s %s' % (cnt_ok(m.group(2)), m.group(3), ev_ok(m.group(1))))
+            continue
+        if s == 'game . gecko_codes . as_ref ( ) . map_or ( 0 , gecko_codes_size )':
+            terms.append('RtGecko')
+            continue
+        raise TranslateError('%s: unrecognised term of the sum: %s' % (where, s[:300]))
+
+    # ---- frame_counts
+    where = '%s fn frame_counts' % SLP_SER
+    params, ret, body = find_fn(SLP_SER, None, 'frame_counts')
+    if sjp(params) != 'frames : & Frame' or sj(ret) != '-> FrameCounts':
+        raise TranslateError('%s: unexpected signature' % where)
+    lp, lr, lb = find_fn(FW_DECL, 'Frame', 'len')
+    if sj(lb) != 'self . id . len ( )':
+        raise TranslateError('%s Frame::len: not `self.id.len()`' % FW_DECL)
+    sts = fw_stmts(body, where)
+    if len(sts) != 2 or sj(sts[0]) != 'let len = frames . len ( )':
+        raise TranslateError('%s: not `let len = frames.len(); FrameCounts { .. }`' % where)
+    UNSET = r'\. validity \. as_ref \( \) \. map_or \( 0 , \| v \| v \. unset_bits \( \) \)'
+    LEN = lambda who: r'(len(?: - %s %s)?)' % (who, UNSET)
+    fields = []
+    for name, e in parse_self_literal(sts[1], where, r'FrameCounts'):
+        if e == 'len . try_into ( ) . unwrap ( )':
+            fields.append((name, 'FcFramesLen'))
+            continue
+        m = re.fullmatch(r'frames \. ports \. iter \( \) \. map \( \| p \| \{ %s \+ p \. follower \. as_ref \( \) \. map_or \( 0 , \| f \| \{ %s \} \) \} \) '
+                         r'\. sum :: < usize > \( \) \. try_into \( \) \. unwrap \( \)' % (LEN(r'p \. leader'), LEN('f')), e)
+        if m:
+            k = lambda g: 'FcLen' if g == 'len' else 'FcLenMinusUnset'
+            fields.append((name, 'FcPortsSum %s %s' % (k(m.group(1)), k(m.group(2)))))
+            continue
+        if e == 'frames . item . as_ref ( ) . map_or ( 0 , | i | i . id . len ( ) as u32 )':
+            fields.append((name, 'FcItemIds'))
+            continue
+        raise TranslateError('%s: unrecognised initialiser of %s: %s' % (where, name, e[:300]))
+    if [n for n, _ in fields] != [n for n, _ in counts_decl]:
+        raise TranslateError('%s: the literal does not initialise frames, frame_data, items in this order: %s' % (where, [n for n, _ in fields]))
+
+    # ---- gecko_codes_size
+    where = '%s fn gecko_codes_size' % SLP_SER
+    params, ret, body = find_fn(SLP_SER, None, 'gecko_codes_size')
+    if sjp(params) != 'gecko_codes : & GeckoCodes' or sj(ret) != '-> u32':
+        raise TranslateError('%s: unexpected signature' % where)
+    m = strict_match([sj(x) for x in fw_stmts(body, where)], [
+        ('`assert_eq!(gecko_codes.bytes.len() % N, 0)`', r'assert_eq ! \( gecko_codes \. bytes \. len \( \) % (\d+) , 0 \)'),
+        ('`let num_blocks = u32::try_from(gecko_codes.bytes.len()).unwrap() / N`',
+         r'let num_blocks = u32 :: try_from \( gecko_codes \. bytes \. len \( \) \) \. unwrap \( \) / (\d+)'),
+        ('the result expression', r'(.*)'),
+    ], where)
+
+    L = []
+    L.append('(* GENERATED by tools/rust2coq.py from %s (PayloadSizes::raw_size, fn frame_counts, fn gecko_codes_size) -- do not edit. *)' % SLP_SER)
+    L.append('From Coq Require Import NArith List String.')
+    L.append('From Peppi Require Import Gen.Funs.')
+    L.append('Import ListNotations.')
+    L.append('Local Open Scope string_scope.')
+    L.append('')
+    L.append('(* the summands of raw_size, in source order (the sum associates to the left):')
+    L.append('   RtConst n            n')
+    L.append('   RtTableLen k         (k * self.sizes.len() as u32)')
+    L.append('   RtSize E             sizes[&(E as u8)] as u32                                   -- panics when E is not in the table')
+    L.append('   RtIfEnd k E          game.end.as_ref().map_or(0, |_| k + sizes[&(E as u8)] as u32)')
+    L.append('   RtIfEndDouble k E    match game.end.is_some() && game.quirks.map_or(false, |q| q.double_game_end)')
+    L.append('                          { true => k + sizes[&(E as u8)] as u32, _ => 0u32 }')
+    L.append('   RtCountReq C k E     counts.C * (k + sizes[&(E as u8)] as u32)')
+    L.append('   RtCountOpt C k E     sizes.get(&(E as u8)).map_or(0, |s| counts.C * (k + *s as u32))')
+    L.append('   RtGecko              game.gecko_codes.as_ref().map_or(0, gecko_codes_size) *)')
+    L.append('Inductive rterm :=')
+    L.append('| RtConst (n : N) | RtTableLen (k : N) | RtSize (event : string) | RtIfEnd (k : N) (event : string)')
+    L.append('| RtIfEndDouble (k : N) (event : string) | RtCountReq (count : string) (k : N) (event : string)')
+    L.append('| RtCountOpt (count : string) (k : N) (event : string) | RtGecko.')
+    L.append('Definition raw_size_terms : list rterm :=\n  [%s]%%N.' % ';\n   '.join(terms))
+    L.append('')
+    L.append('(* frame_counts: `let len = frames.len();` (= self.id.len()) and the initialisers of FrameCounts { frames, frame_data, items }:')
+    L.append('   FcFramesLen        len.try_into().unwrap()')
+    L.append('   FcPortsSum l f     frames.ports.iter().map(|p| { <l for p.leader> + p.follower.as_ref().map_or(0, |f| { <f for f> }) }).sum()..')
+    L.append('                      with FcLen = `len`, FcLenMinusUnset = `len - <x>.validity.as_ref().map_or(0, |v| v.unset_bits())`')
+    L.append('   FcItemIds          frames.item.as_ref().map_or(0, |i| i.id.len() as u32) *)')
+    L.append('Inductive fc_len := FcLen | FcLenMinusUnset.')
+    L.append('Inductive fc_field := FcFramesLen | FcPortsSum (leader follower : fc_len) | FcItemIds.')
+    L.append('Definition frame_counts_fields : list (string * fc_field) :=\n  [%s].' % '; '.join('(%s, %s)' % (coq_str(n), f) for n, f in fields))
+    L.append('')
+    L.append('(* gecko_codes_size: assert_eq!(bytes.len() %% N, 0); num_blocks = bytes.len() / N; the result *)')
+    L.append('Definition gecko_size_mod : nat := %d.' % int(m[0].group(1)))
+    L.append('Definition gecko_size_div : N := %d%%N.' % int(m[1].group(1)))
+    L.append(expr_to_gallina(m[2].group(1), [], {'num_blocks': 'num_blocks'}, where, 'gecko_size_total', ['num_blocks'], 'N'))
+    L.append('(* de::Event: variant name -> code (the Event_* constants of Gen/Funs.v) *)')
+    L.append('Definition raw_event_codes : list (string * N) :=\n  [%s].' % '; '.join('(%s, Event_%s)' % (coq_str(n), n) for n in events))
+    return '\n'.join(L) + '\n'
+
+
+def byte_list(text, where):
+    out = []
+    for x in text.replace(' ', '').split(','):
+        if x:
+            if not re.fullmatch(r'0x[0-9a-fA-F]{1,2}|\d{1,3}', x) or num(x) > 255:
+                raise TranslateError('%s: not a byte literal: %s' % (where, x))
+            out.append(num(x))
+    return out
+
+
+def gen_writer_steps():
+    events = dict(enum_codes(DE_RS, 'Event'))
+    stoks = tokenize(read(SLP_SER), SLP_SER)
+    if find_seq(stoks, ['type', 'BE', '=', 'byteorder', '::', 'BigEndian', ';']) < 0:
+        raise TranslateError('%s: `type BE = byteorder::BigEndian;` not found' % SLP_SER)
+    # helpers game_start / game_end: event code, then the retained bytes
+    helpers = {}
+    for fn, pat in (('game_start', r'assert_eq ! \( ver , s \. slippi \. version \) ; w \. write_u8 \( Event :: (\w+) as u8 \) \? ; Ok \( w \. write_all \( & s \. bytes \. 0 \) \? \)'),
+                    ('game_end', r'w \. write_u8 \( Event :: (\w+) as u8 \) \? ; Ok \( w \. write_all \( & e \. bytes \. 0 \) \? \)')):
+        p_, r_, b_ = find_fn(SLP_SER, None, fn)
+        m = re.fullmatch(pat, sj(b_))
+        if not m or m.group(1) not in events:
+            raise TranslateError('%s fn %s: not `w.write_u8(Event::X as u8)?; Ok(w.write_all(&<x>.bytes.0)?)`: %s' % (SLP_SER, fn, sj(b_)[:300]))
+        helpers[fn] = m.group(1)
+    where = '%s fn write' % SLP_SER
+    params, ret, body = find_fn(SLP_SER, None, 'write')
+    if sjp(params) != 'w : & mut W , game : & Game':
+        raise TranslateError('%s: unexpected parameters: %s' % (where, sjp(params)))
+    for tok in body:
+        if tok == ('id', 'return'):
+            raise TranslateError('%s: `return`: the steps after it would be conditional' % where)
+    steps = []
+    sts = fw_stmts(body, where)
+    seen = {'sizes': False, 'ver': False}
+    GE = r'game_end \( w , end , ver \) \? ;'
+    for k, st in enumerate(sts):
+        s = sj(st)
+        if k == len(sts) - 1:
+            if s != 'Ok ( ( ) )':
+                raise TranslateError('%s: the last statement is not `Ok(())`: %s' % (where, s[:200]))
+            break
+        if s == 'slippi :: assert_max_version ( game . start . slippi . version ) ?':
+            steps.append('WsAssertMaxVersion')
+        elif s == 'let payload_sizes = payload_sizes ( game )' and not seen['sizes']:
+            seen['sizes'] = True
+            steps.append('WsPayloadSizes')
+        elif s == 'w . write_all ( & slippi :: FILE_SIGNATURE ) ?':
+            steps.append('WsSignature')
+        elif s == 'w . write_u32 :: < BE > ( payload_sizes . raw_size ( game ) ) ?' and seen['sizes']:
+            steps.append('WsRawSizeU32')
+        elif re.fullmatch(r'w \. write_u8 \( Event :: (\w+) as u8 \) \?', s):
+            e = re.fullmatch(r'w \. write_u8 \( Event :: (\w+) as u8 \) \?', s).group(1)
+            if e not in events:
+                raise TranslateError('%s: Event::%s is not a variant of de::Event' % (where, e))
+            steps.append('WsCode %s' % coq_str(e))
+        elif re.fullmatch(r'w \. write_u8 \( \( payload_sizes \. sizes \. len \( \) \* (\d+) \+ (\d+) \) \. try_into \( \) \. unwrap \( \) \) \?', s) and seen['sizes']:
+            m = re.fullmatch(r'w \. write_u8 \( \( payload_sizes \. sizes \. len \( \) \* (\d+) \+ (\d+) \) \. try_into \( \) \. unwrap \( \) \) \?', s)
+            steps.append('WsTableLenU8 %s %s' % (m.group(1), m.group(2)))
+        elif s == 'for ( event , size ) in payload_sizes . sizes { w . write_u8 ( event ) ? ; w . write_u16 :: < BE > ( size ) ? ; }' and seen['sizes']:
+            steps.append('WsTable true')
+        elif s == 'for ( event , size ) in payload_sizes . sizes { w . write_u16 :: < BE > ( size ) ? ; w . write_u8 ( event ) ? ; }' and seen['sizes']:
+            steps.append('WsTable false')
+        elif s == 'let ver = game . start . slippi . version' and not seen['ver']:
+            seen['ver'] = True
+        elif s == 'game_start ( w , & game . start , ver ) ?' and seen['ver']:
+            steps.append('WsGameStart')
+        elif s == 'if let Some ( codes ) = & game . gecko_codes { gecko_codes ( w , codes ) ? ; }':
+            steps.append('WsGecko')
+        elif s == 'game . frames . write ( w , ver ) ?' and seen['ver']:
+            steps.append('WsFrames')
+        elif re.fullmatch(r'if let Some \( end \) = & game \. end \{ %s(?: if game \. quirks \. map_or \( false , \| q \| q \. double_game_end \) \{ %s \})? \}' % (GE, GE), s) and seen['ver']:
+            steps.append('WsGameEnd')
+            if 'double_game_end' in s:
+                steps.append('WsGameEndIfDouble')
+        elif re.fullmatch(r'if let Some \( metadata \) = & game \. metadata \{ w \. write_all \( & \[ ([^\]]*) \] \) \? ; ubjson :: write_map \( w , metadata \) \? ; '
+                          r'w \. write_all \( & \[ ([^\]]*) \] \) \? ; \}', s):
+            m = re.fullmatch(r'if let Some \( metadata \) = & game \. metadata \{ w \. write_all \( & \[ ([^\]]*) \] \) \? ; ubjson :: write_map \( w , metadata \) \? ; '
+                             r'w \. write_all \( & \[ ([^\]]*) \] \) \? ; \}', s)
+            steps.append('WsMetadata [%s] [%s]' % ('; '.join(map(str, byte_list(m.group(1), where))), '; '.join(map(str, byte_list(m.group(2), where)))))
+        elif re.fullmatch(r'w \. write_all \( & \[ ([^\]]*) \] \) \?', s):
+            m = re.fullmatch(r'w \. write_all \( & \[ ([^\]]*) \] \) \?', s)
+            steps.append('WsBytes [%s]' % '; '.join(map(str, byte_list(m.group(1), where))))
+        else:
+            raise TranslateError('%s: unrecognised statement: %s' % (where, s[:300]))
+    for need in ('WsAssertMaxVersion', 'WsPayloadSizes'):
+        if steps.count(need) != 1:
+            raise TranslateError('%s: expected exactly one %s step' % (where, need))
+    L = []
+    L.append('(* GENERATED by tools/rust2coq.py from %s (fn write, fn game_start, fn game_end) -- do not edit. *)' % SLP_SER)
+    L.append('From Coq Require Import NArith List String.')
+    L.append('From Peppi Require Import Gen.Funs.')
+    L.append('Import ListNotations.')
+    L.append('Local Open Scope string_scope.')
+    L.append('')
+    L.append('(* the statements of write(w, game), in source order:')
+    L.append('   WsAssertMaxVersion      slippi::assert_max_version(game.start.slippi.version)?')
+    L.append('   WsPayloadSizes          let payload_sizes = payload_sizes(game)')
+    L.append('   WsSignature             w.write_all(&slippi::FILE_SIGNATURE)?')
+    L.append('   WsRawSizeU32            w.write_u32::<BE>(payload_sizes.raw_size(game))?')
+    L.append('   WsCode E                w.write_u8(Event::E as u8)?')
+    L.append('   WsTableLenU8 k c        w.write_u8((payload_sizes.sizes.len() * k + c).try_into().unwrap())?')
+    L.append('   WsTable ev_first        for (event, size) in payload_sizes.sizes { w.write_u8(event)?; w.write_u16::<BE>(size)?; }  (true: in this order)')
+    L.append('   WsGameStart             game_start(w, &game.start, ver)?          (ver = game.start.slippi.version)')
+    L.append('   WsGecko                 if let Some(codes) = &game.gecko_codes { gecko_codes(w, codes)?; }')
+    L.append('   WsFrames                game.frames.write(w, ver)?')
+    L.append('   WsGameEnd               if let Some(end) = &game.end { game_end(w, end, ver)?; ..')
+    L.append('   WsGameEndIfDouble          .. if game.quirks.map_or(false, |q| q.double_game_end) { game_end(w, end, ver)?; } }')
+    L.append('   WsMetadata pre post     if let Some(metadata) = &game.metadata { w.write_all(&[pre])?; ubjson::write_map(w, metadata)?; w.write_all(&[post])?; }')
+    L.append('   WsBytes bs              w.write_all(&[bs])? *)')
+    L.append('Inductive wstep :=')
+    L.append('| WsAssertMaxVersion | WsPayloadSizes | WsSignature | WsRawSizeU32 | WsCode (event : string) | WsTableLenU8 (k c : N)')
+    L.append('| WsTable (event_first : bool) | WsGameStart | WsGecko | WsFrames | WsGameEnd | WsGameEndIfDouble')
+    L.append('| WsMetadata (pre post : list N) | WsBytes (bs : list N).')
+    L.append('Definition write_steps : list wstep :=\n  [%s]%%N.' % ';\n   '.join(steps))
+    L.append('(* game_start / game_end: w.write_u8(Event::X as u8)?; w.write_all(&<x>.bytes.0)? *)')
+    L.append('Definition ws_game_start_event : string := %s.' % coq_str(helpers['game_start']))
+    L.append('Definition ws_game_end_event : string := %s.' % coq_str(helpers['game_end']))
+    L.append('(* de::Event: variant name -> code (the Event_* constants of Gen/Funs.v) *)')
+    L.append('Definition ws_event_codes : list (string * N) :=\n  [%s].' % '; '.join('(%s, Event_%s)' % (coq_str(n), n) for n in events))
+    return '\n'.join(L) + '\n'
+
+
 def write_if_changed(path, content):
     os.makedirs(os.path.dirname(path), exist_ok=True)
     try:
@@ -3249,7 +3537,8 @@ def main():
     for name, gen in (('Funs.v', gen_funs), ('Tables.v', lambda: emit_tables(gen_tables())), ('Layouts.v', gen_layouts),
                       ('WriterSizes.v', gen_payload_sizes), ('SlppEntries.v', gen_slpp_entries),
                       ('FrameWrite.v', gen_frame_write), ('Splitter.v', gen_splitter),
-                      ('ReadTail.v', gen_read_tail), ('UbjsonMarkers.v', gen_ubjson_markers)):
+                      ('ReadTail.v', gen_read_tail), ('UbjsonMarkers.v', gen_ubjson_markers),
+                      ('WriterRaw.v', gen_writer_raw), ('WriterSteps.v', gen_writer_steps)):
         try:
             content = gen()
             if write_if_changed(os.path.join(OUT, name), content):
